@@ -12,6 +12,7 @@ func propC05(r *Report, tier string) {
 	in := findIntroducers(r.P)
 	ruleMergeUsingAlignment(r, "K14-merge-input-alignment")
 	ruleFlushableAlignment(r, "K14-merge-input-alignment")
+	ruleParallelSlicesResetTogether(r, "K14-parallel-slices-reset-together", "index/scorch", "search/searcher", "search/collector", "index/upsidedown")
 	ruleOffsetsAlignment(r, "K14-offsets-alignment", snapshotConstructors(r, in))
 	ruleMergeIntroducerRemap(r, in, "K5dep-merge-remap")
 	rulePersistIntroducerCarry(r, in, "K9b-persist-carry")
